@@ -4,7 +4,7 @@ PROPS[pid]["rules"] = [(rule id, floor of decided instances, selector over insta
 Floors are the numbers counted on the tree the rules were written against: a rule that suddenly
 matches fewer sites is a broken check (exit 2), never a silent pass.
 """
-from . import lt, td, pm, hs, ws, tf, ec, se, bb, lc, cm, vt, bt, wf, dp, dt, he, gl, ts, ee, sl, wp, fs, ic, nb, im, rn, mp, sp, ms, cp, sh, st, rh, vo, wi, law, cn, pr, dtr, sa, vx
+from . import lt, td, pm, hs, ws, tf, ec, se, bb, lc, cm, vt, bt, sr, wf, dp, dt, he, gl, ts, ee, sl, wp, fs, ic, nb, im, rn, mp, sp, ms, cp, sh, st, rh, vo, wi, law, cn, pr, dtr, sa, vx
 
 
 def has(*subs):
@@ -69,6 +69,7 @@ RULES = {
     "CM": {"run": cm.run},
     "VT": {"run": vt.run},
     "BT": {"run": bt.run},
+    "SR": {"run": sr.run},
 }
 
 BDD_T = ("BddNode", "BddPtr")
@@ -81,7 +82,7 @@ PROPS = {
                   ("IM", 14, has("IM2", "IM3")), ("HE", 2, has("BddNode:scratch", "BddNode:fields")),
                   ("DT", 7, has("BddPtr", "BottomUpBuilder::or:", "BottomUpBuilder::compose:")),
                   ("FS", 2, has("or_lst", "and_lst")), ("ST", 2, None), ("GL", 1, has("GL6")), ("VO", 14, vo_sel("::bdd::", "var_order")),
-                  ("GL", 8, has(":GL1:", ":GL2:", "ite_helper:GL4", ":GL5:", ":GL8:")),
+                  ("GL", 9, has(":GL1:", ":GL2:", "ite_helper:GL4", ":GL5:", ":GL8:", "ite_helper:GL11")),
                   ("SH", 5, has("RobddBuilder", "BottomUpBuilder<repr::bdd::BddPtr> for T>::var"))],
         "explanation": "Six structural clauses of BDD operation correctness. (e) the standard-triple normalisation Ite::new "
                        "preserves ite(f,g,h) on every path for every truth assignment (ST: exhaustive abstract interpretation over "
@@ -101,7 +102,7 @@ PROPS = {
                   ("IM", 14, has("IM2", "IM3")), ("HE", 4, has("BinarySDD:scratch", "SddOr:scratch", "BinarySDD:fields", "SddOr:fields")),
                   ("ST", 2, None), ("SH", 1, has("SddPtr> for T>::condition")), ("SA", 12, None), ("VX", 9, None),
                   ("VO", 1, vo_sel("::sdd::", only_label_order=True)),
-                  ("GL", 10, has(":GL1:", ":GL2:", "SddPtr> for T>::ite:GL4", "SddPtr> for T>::and:GL4", "AllIteTable:GL8", ":GL10:")),
+                  ("GL", 12, has(":GL1:", ":GL2:", "SddPtr> for T>::ite:GL4", "SddPtr> for T>::and:GL4", "AllIteTable:GL8", ":GL10:", "SddPtr> for T>::ite:GL11", "SddPtr> for T>::and:GL11")),
                   ("BT", 8, None)],
         "explanation": "Complement coherence of every place the SDD code touches subs/children of a possibly complemented node "
                        "(and_sub_desc, and_prime_desc, and_cartesian, condition, SddPtr::{low,high,neg,is_neg}): operands of "
@@ -114,7 +115,7 @@ PROPS = {
     "C06": {
         "level": "other",
         "rules": [("CP", 4, has("decision_nnf::")), ("TS", 7, has("TS-BAL")), ("DP", 3, has("topdown")),
-                  ("GL", 1, has("component-cache")), ("SP", 10, has("SP1")),
+                  ("GL", 2, has("component-cache", "topdown_h:GL11")), ("SP", 10, has("SP1")),
                   ("SH", 6, has("decision_nnf::")), ("RN", 7, has("RN4")),
                   ("WP", 4, has("update_hash_and_sat_set")), ("PR", 1, has("SATSolver")),
                   ("TD", 4, None), ("VO", 1, vo_sel("decision_nnf", only_label_order=True)),
@@ -270,7 +271,7 @@ PROPS = {
     },
     "C16": {
         "level": "proof",
-        "rules": [("GL", 21, hasnot("GL3", "component-cache", "GL6", "GL7")), ("CP", 2, has("IteTable:compl-flag")), ("ST", 2, None)],
+        "rules": [("GL", 25, hasnot("GL3", "component-cache", "GL6", "GL7")), ("CP", 2, has("IteTable:compl-flag")), ("ST", 2, None)],
         "explanation": "Complete structural argument for the first sentence: Lru::get returns Some(e.val) only under the "
                        "true edge of e.key == key (GL1); insert writes one Element{key,val,hash} of its own arguments into "
                        "the slot that get reads, grow re-inserts whole triples (GL2); the adapter's hash is a function of "
@@ -280,7 +281,7 @@ PROPS = {
     "C17": {
         "level": "other",
         "rules": [("DP", 11, has("from_sexpr", "VTreeSerializer", "from_dimacs")), ("IC", 1, has("from_dimacs")),
-                  ("CP", 6, has("serialize::")), ("CN", 1, has("repr::cnf::"))],
+                  ("CP", 6, has("serialize::")), ("CN", 1, has("repr::cnf::")), ("SR", 3, None)],
         "explanation": "The s-expression translation and the vtree mirror map each variant to its namesake with children in "
                        "order (DP); DIMACS signs map Neg to false and Pos to true in both parsers (DP); the CNF parser "
                        "subtracts one from the 1-based DIMACS variable (IC OneBased -> Index). Not decided: model-level "
@@ -301,7 +302,7 @@ PROPS = {
     "C19": {
         "level": "other",
         "rules": [("MP", 6, None), ("SL", 7, None), ("CP", 3, has("ser_bdd")), ("VO", 2, has("var_at_level")),
-                  ("CN", 1, has("dedup")), ("DP", 2, has("from_dimacs:sign"))],
+                  ("CN", 1, has("dedup")), ("DP", 2, has("from_dimacs:sign")), ("SR", 1, has("ser_bdd"))],
         "explanation": "In each tool the counted / serialised diagram is the compiled one, compiled on a builder whose order "
                        "comes from the same formula; counts are taken on smooth(_, num_vars); weights are keyed by the "
                        "expression's own variable mapping (MP, SL2). Not decided: the printed numbers.",
